@@ -131,7 +131,7 @@ fn arb_wf() -> BoxedStrategy<WfCase> {
 }
 
 fn run_wellformed(ctx: &mut Ctx) {
-    let cases = ctx.share(ctx.tier.pick(60_000, 3_000_000));
+    let cases = ctx.share(ctx.tier.pick(300_000, 4_000_000));
     run_strategy(ctx, "C02", "wellformed", cases, arb_wf(), check_wellformed);
 }
 
@@ -192,7 +192,7 @@ pub fn check_bytes(b: &Bytes, obs: &mut Obs) -> Result<(), String> {
 }
 
 fn run_corrupt(ctx: &mut Ctx) {
-    let cases = ctx.share(ctx.tier.pick(60_000, 3_000_000));
+    let cases = ctx.share(ctx.tier.pick(300_000, 4_000_000));
     let strat = (arb_wf(), any::<u16>(), any::<u8>(), any::<u16>()).prop_map(|(wf, at, op, tok)| {
         let text = render(&wf.doc, &wf.ws, wf.relaxed_ws, true);
         Bytes(corrupt(&text, at, op, tok))
@@ -201,7 +201,7 @@ fn run_corrupt(ctx: &mut Ctx) {
 }
 
 fn run_soup(ctx: &mut Ctx) {
-    let cases = ctx.share(ctx.tier.pick(60_000, 3_000_000));
+    let cases = ctx.share(ctx.tier.pick(300_000, 4_000_000));
     let soup = vec(0..TOKENS.len(), 0..14).prop_map(|ix| Bytes(ix.into_iter().flat_map(|i| TOKENS[i].iter().copied()).collect()));
     let raw = vec(any::<u8>(), 0..24).prop_map(Bytes);
     // a string literal body made of escape fragments: the scanner's fixed-width skips
